@@ -200,7 +200,7 @@ vf_w(sub_atom, ok(N, M)) :-
     findall(B, atom_concat(B, _, abcdefghijklmnopqrstuvwxyz), Bs), length(Bs, M).
 
 vf_w(freeze, ok(N)) :-
-    length(Vs, 200), vf_freeze_all(Vs, acc), maplist(=(1), Vs),
+    length(Vs, 60), vf_freeze_all(Vs, acc), maplist(=(1), Vs),
     length(Vs, N).
 
 vf_w(dif, ok(R)) :-
